@@ -375,6 +375,11 @@ def run(ctx, rec):
                 cases.append((kind, w, [idx]))
         done_boxes.append(f"{kind} W={Wb}")
     rec.extra["exhaustive_boxes"] = done_boxes
+    # every parent kind, whole and reversed (the whole parent reaches the port as it is, without being taken apart bit by bit)
+    for kind in KINDS:
+        for w in (1, 2, 3, 4, 5):
+            for idx in ([None, None, None], [None, None, -1], [0, w, None], [-w, None, 1]):
+                cases.append((kind, w, [idx]))
     # sampled depth-1 for the other parents (quick), depth 2..3, and wide buses
     n_s1 = 2500 if ctx.quick else 16000
     for _ in range(n_s1):
